@@ -379,7 +379,16 @@ def check_opmode(run: common.Run, drv: common.Driver, rng: random.Random, sc: R.
                     dv, dok = mod.decode(m, bytes.fromhex(spec["ok"]))
                     if dv != v or not dok:
                         run.violation(dict(rep, kind="impl-vs-spec", expected_by_spec={"decode": v},
-                                           observed_impl={"decode": dv, "struct_guards_intact": dok}))
+                                           observed_impl={"decode": dv, "struct_guards_intact_and_no_access_beyond_the_buffer": dok,
+                                                          "decode_rc(2 = fault beyond the message's bytes)": getattr(mod, "last_decode_rc", 0)}))
+                else:
+                    # values are not comparable when fields were overdriven, but the decoder must still stay inside the
+                    # ceil(N/8) bytes it is given (fenced buffer) and inside the struct (guard zones)
+                    dv, dok = mod.decode(m, bytes.fromhex(spec["ok"]))
+                    run.count(f"exec:{cfg['name']}:decode-stays-inside")
+                    if not dok:
+                        run.violation(dict(rep, kind="impl-vs-spec", expected_by_spec="decoding reads nothing beyond ceil(N/8) bytes and writes nothing outside the struct",
+                                           observed_impl={"decode_rc(1 = struct guard damaged, 2 = fault beyond the message's bytes)": getattr(mod, "last_decode_rc", 0)}))
             del mod
 
 
